@@ -40,6 +40,7 @@ impl Scratch {
         let root = base.join(format!("verif-{}-{}", tag, std::process::id()));
         let _ = std::fs::remove_dir_all(&root);
         std::fs::create_dir_all(&root).expect("create scratch");
+        SCRATCH_ROOTS.lock().unwrap().push(root.clone());
         Scratch { root, keep: false }
     }
     pub fn keep(&mut self) {
@@ -61,6 +62,18 @@ impl Drop for Scratch {
             let _ = make_writable(&self.root);
             let _ = std::fs::remove_dir_all(&self.root);
         }
+    }
+}
+
+static SCRATCH_ROOTS: std::sync::Mutex<Vec<PathBuf>> = std::sync::Mutex::new(Vec::new());
+
+/// Removes every scratch root created by this process (called by `Run::finish`, which exits
+/// without running destructors).
+pub fn cleanup_scratch() {
+    let roots: Vec<PathBuf> = std::mem::take(&mut *SCRATCH_ROOTS.lock().unwrap());
+    for r in roots {
+        let _ = make_writable(&r);
+        let _ = std::fs::remove_dir_all(&r);
     }
 }
 
